@@ -59,6 +59,20 @@ FAULTS = [
     ('M6 exponents sorted before use (unsorted / descending b)', IM,
      "    if hasattr(b, '__len__'):\n        b = np.asarray(b, dtype=float)\n    peak_indices",
      "    if hasattr(b, '__len__'):\n        b = np.sort(np.asarray(b, dtype=float))\n    peak_indices", 0),
+    # -- wave 5 (extreme-scale classes); exact strings refer to /repo at ffe760b or later
+    ('X1 turning points through the sign of a product of steps (uniformly tiny / huge records)', PC,
+     "def determine_peak_only_delta_series_4_cleaned_data(values):",
+     "def determine_peak_only_delta_series_4_cleaned_data(values):\n    values = np.where(np.abs(values) * np.abs(values) > 0, values, 0.0) if np.ndim(values) else values", 0),
+    ('X2 steps below 1e-7 of the record maximum treated as flat (ripple on a baseline; also micro-amplitude + offset)', PC,
+     "    non_zero_indices = np.where(diff_values != 0)[0]\n",
+     "    non_zero_indices = np.where(np.abs(diff_values) > 1e-7 * np.max(np.abs(values)))[0]\n", 0),
+    ('X3 series functions round the record to float32 first (counts above 2**24; also any non-float32 record)', PC,
+     "    values = np.array(values, dtype=float)\n    # rebase", "    values = np.array(values, dtype=np.float32).astype(float)\n    # rebase", 0),
+    ('X5 cycle count from separate powers p^(1/b) / a_ref^(1/b) (record and a_ref scaled by 1e+-165..200)', IM,
+     "perc = 0.5 / (n_ref * (a_ref / csr_peaks)[:, np.newaxis] ** (1 / b))",
+     "perc = 0.5 * (csr_peaks[:, np.newaxis] ** (1 / b)) / (np.float64(a_ref) ** (1 / b)) / n_ref", 0),
+    ('X6 gm through the product of the component amplitudes (regression of the wave-5 finding, if repaired)', IM,
+     "np.sqrt(csr_n_series0) * np.sqrt(csr_n_series1)", "np.sqrt(csr_n_series0 * csr_n_series1)", 0),
 ]
 # invisible to the statement (documented in ASSUMPTIONS): global sign of the delta series
 INVISIBLE = [('c sign normalisation removed (delta)', PC, SIGN, "", 0)]
@@ -88,7 +102,7 @@ def main():
             if not name.startswith(which):
                 continue
             path = os.path.join(REPO, fn)
-            orig = open(os.path.join('/repo', fn)).read()
+            orig = open(path).read()      # the scratch copy is the base (it may carry a candidate repair)
             text = nth_replace(orig, old, new, nth)
             if 'S module-level' in name:
                 text = text.replace("def calc_cyc_amp_array_w_power_law(values, n_cyc, b):", "_SCRATCH = {}\n\n\ndef calc_cyc_amp_array_w_power_law(values, n_cyc, b):")
